@@ -53,7 +53,13 @@ ASSUMPTIONS = [
     "a degenerate range r0 == r1 may either be answered (with the rows the docstring formula selects) or be "
     "rejected as overlapping no chunk; both are accepted",
     "DataDirectory / FileSytemBackend only",
+    "NUMBA_DISABLE_JIT=1 in the workers: strax's jitted helpers (chunk.split_array, diff, endtime) execute the same "
+    "source as plain Python; numba's type specialisation itself is not part of this property",
 ]
+
+# Workers run strax's numba helpers (split_array, diff, endtime ...) in pure-Python mode: every worker has an empty
+# numba cache, and compiling them for each record dtype costs more than all requests of the quick tier together.
+ENV = {"NUMBA_DISABLE_JIT": "1"}
 
 RUN = "run0"
 SEC_UNITS = (250_000_000, 1_953_125)  # 2**-2 s and 2**-9 s in ns: k*unit/1e9 is an exact double
